@@ -15,4 +15,4 @@ for f in "$OUT"/rsrc/*.c; do
   objs="$objs ${f%.c}.o"
 done
 gcc -O1 -g $SAN -I"$OUT" -I"$HERE/spec" -I"$HERE/replay" -I"$REPO/include" -I"$OUT/rsrc" \
-   "$HERE/replay/replay_api.c" "$HERE/spec/spec_ref.c" $objs -Wl,--wrap=calloc -o "$OUT/replay_api"
+   "$HERE/replay/replay_api.c" "$HERE/spec/spec_ref.c" $objs -Wl,--wrap=calloc -Wl,--wrap=free -o "$OUT/replay_api"
